@@ -1,6 +1,6 @@
 import Hive.Gen.C08_Calls
 /-!
-# C08 — `StopBatchWriter`, `Flush` and `startBatchWriter` of the protocol model are derived from the source
+# C08 — `StopBatchWriter`, `Flush`, `startBatchWriter` and `Enqueue` of the protocol model are derived from the source
 
 `Hive/Gen/C08_Calls.lean` is regenerated on every run by `harness/c08/callgen` (go/ast → terms of `Calls.PS`);
 `Hive/Model/BatchWriterCalls.lean` lays the terms out as instruction lists and gives every instruction its meaning as one
@@ -84,5 +84,56 @@ theorem C08_model_startBatchWriter_is_source (s : St) (id cur : Nat) (script : L
   · simp [stepProd, stepP, stepI, startIdx, startPc, onceMark]
   · simp [stepProd, stepP, stepI, startIdx, startPc, onceMark]
   · simp [stepProd, stepP, stepI, startIdx, startPc, onceMark]
+
+/-! ### Enqueue -/
+
+theorem C08_calls_flatten_Enqueue :
+    flatten fn_Enqueue = [.onceEnter 4, .brRunning true 3, .callStart, .onceExit, .countAdd 1, .brRunning true 8,
+      .countAdd (-1), .ret, .yield, .brScheduled 12, .countAdd (-1), .ret, .send] := by decide
+
+/-- instruction index ↔ program counter of the model.  Index 2 (`bw.startBatchWriter()`) is the entry of the helper
+(`C08_model_startBatchWriter_is_source`, which returns to `.onceEnd` = index 3); 6 and 10 are the two
+`scheduledCount.Add(-1)` on the way out (one state `.undo` in the model), 7 / 11 / 13 the returns; 8 (the yield point)
+is never a resting point: the model takes it together with the running check (`stepPF`). -/
+def enqPc : Nat → PPc
+  | 0 => .onceChk | 1 => .body | 2 => .startLock | 3 => .onceEnd | 4 => .inc | 5 => .chkRun | 6 => .undo
+  | 9 => .cas | 10 => .undo | 12 => .send | _ => .ret
+
+/-- the Once bookkeeping the model adds in the body: past the start decision -/
+def onceMarkE (s : St) (i : Nat) (s' : St) : St := if i = 1 ∧ s.running = true then { s' with once := 2 } else s'
+
+/-- **The model's `Enqueue` is the interpreted source.**  For every instruction index at which the model rests
+(`onceChk`, `body`, `onceEnd`, `inc`, `chkRun`, both `undo` sites, `cas`, `send`): the step of `stepProd` at the
+corresponding program counter is the (yield-fused) step of the generated program — the Once entry, the start decision,
+`scheduledCount.Add(1)` **before** `running.Load()`, `Add(-1)` on both early returns, the flag test-and-set after the
+yield point, the queue send. -/
+theorem C08_model_Enqueue_is_source (s : St) (id cur : Nat) (script : List Nat) (i : Nat)
+    (hi : i = 0 ∨ i = 1 ∨ i = 3 ∨ i = 4 ∨ i = 5 ∨ i = 6 ∨ i = 9 ∨ i = 10 ∨ i = 12) :
+    stepProd s id (enqPc i) cur script =
+      (stepPF (flatten fn_Enqueue) s i id cur).map
+        (fun x => (onceMarkE s i x.1, Thread.prod id (enqPc x.2) cur script)) := by
+  rw [C08_calls_flatten_Enqueue]
+  rcases hi with rfl | rfl | rfl | rfl | rfl | rfl | rfl | rfl | rfl
+  · by_cases h0 : s.once = 0
+    · simp [stepProd, stepPF, stepP, stepI, enqPc, onceMarkE, h0]
+    · by_cases h3 : s.once = 3 <;> simp [stepProd, stepPF, stepP, stepI, enqPc, onceMarkE, h0, h3]
+  · by_cases h : s.running <;> simp [stepProd, stepPF, stepP, stepI, enqPc, onceMarkE, h]
+  · simp [stepProd, stepPF, stepP, stepI, enqPc, onceMarkE]
+  · simp [stepProd, stepPF, stepP, stepI, enqPc, onceMarkE]
+  · by_cases h : s.running <;> simp [stepProd, stepPF, stepP, stepI, enqPc, onceMarkE, h, emit]
+  · simp [stepProd, stepPF, stepP, stepI, enqPc, onceMarkE]; rfl
+  · by_cases h : s.flag cur <;> simp [stepProd, stepPF, stepP, stepI, enqPc, onceMarkE, h]
+  · simp [stepProd, stepPF, stepP, stepI, enqPc, onceMarkE]; rfl
+  · by_cases hq : s.queue.length < s.qsize
+    · simp [stepProd, stepPF, stepP, stepI, enqPc, onceMarkE, hq]
+    · by_cases h1 : s.qsize = 0 ∧ s.wpc = .sel
+      · simp [stepProd, stepPF, stepP, stepI, enqPc, onceMarkE, hq, h1]
+      · by_cases h2 : s.qsize = 0 ∧ s.wpc = .fsel
+        · simp [stepProd, stepPF, stepP, stepI, enqPc, onceMarkE, hq, h2]
+        · have h3 : ¬ (s.qsize = 0 ∧ (s.wpc = .sel ∨ s.wpc = .fsel)) := by
+            rintro ⟨ha, hb | hb⟩
+            · exact h1 ⟨ha, hb⟩
+            · exact h2 ⟨ha, hb⟩
+          simp [stepProd, stepPF, stepP, stepI, enqPc, onceMarkE, hq, h1, h2, h3]
 
 end Hive.BatchWriter
